@@ -11,6 +11,11 @@ ALPHAS = ['1/2', '1/4', '1/8', '3/8', '1/16']
 BETAS = ['1/2', '1/4', '1/8', '3/4', '1/16', '3/16']
 LAMBDAS = ['1', '1/2', '3/2', '2', '3/4', '5/4']
 
+# a medium-sized vocabulary: more than 8 distinct ids per file, so that id order, id width and
+# Python set/dict iteration order over ids stop coinciding with first-occurrence order
+CUES_M = CUES + ['c%d' % i for i in range(12)]
+OUTS_M = OUTS + ['o%d' % i for i in range(14)]
+
 
 def params(r, coarse=True):
     a = r.choice(ALPHAS[:3] if coarse else ALPHAS)
@@ -31,8 +36,12 @@ def event(r, cues=CUES, outs=OUTS, max_cues=5, max_outs=3, dup=0.0, empty_out=0.
     return [cs, os_]
 
 
-def events(r, n, dup=0.0, late=False, **kw):
-    """n events; with `late`, half of the names only appear in the second half"""
+def events(r, n, dup=0.0, late=False, medium=False, **kw):
+    """n events; with `late`, half of the names only appear in the second half; with `medium`,
+    names come from CUES_M/OUTS_M and the first event names many of them"""
+    if medium:
+        first = [r.sample(CUES_M, r.randint(6, 14)), r.sample(OUTS_M, r.randint(9, 16))]
+        return [first] + [event(r, CUES_M, OUTS_M, max_cues=8, max_outs=7, dup=dup, **kw) for _ in range(n - 1)]
     if late and n >= 2:
         h = n // 2
         c1, c2 = CUES[:4], CUES
